@@ -81,10 +81,13 @@ def run(ctx, env):
                 continue
             seen_p.add(pth)
             bb = prog.bodies[pth]
-            fd_bodies.append(bb)
+            fd_bodies.append(classifier_inlined(prog, pth) or bb)     # pure predicates (`is_variable_length()`) inlined
             for blk, t, c in bb.calls():
                 if c is not None and c.local and c.path.startswith(IP):
                     st_.append(c.path)
+        # a helper that was inlined into its caller is analysed there, not a second time on its own
+        absorbed = set(x for bb in fd_bodies for x in getattr(bb, "inlined", []))
+        fd_bodies = [bb for bb in fd_bodies if bb.path not in absorbed]
         FL = canon(("field", ("arg", 1), "field_length", IP + "TemplateField"))
         FL2 = canon(("field", ("deref", ("arg", 1)), "field_length", IP + "TemplateField"))
 
